@@ -39,6 +39,8 @@ type Env struct {
 	Dir string
 	Ch  *chain.Chain
 	P   refchain.Params
+	hf  *hfState
+	shadow refchain.UTXO
 }
 
 // Quiet sends gocoin's chatter on stdout to /dev/null (verdict lines are printed
